@@ -7,6 +7,7 @@ Oracle on what the IMPLEMENTATION wrote: extracted spec_fetch / WF
 (ShardSpecReader.v) and the independent Python reader shardlib.py_spec_fetch.
 """
 import itertools
+import shutil
 
 from harness.common import Atom
 from harness.props import shardlib as L
@@ -77,7 +78,9 @@ def run_datasets(R, datasets):
     impl = []
     reqs = []
     for i, (ds, ops, strategy) in enumerate(datasets):
-        outs, closed, files, d = L.impl_write(R, ds, ops, strategy, f"w{i}")
+        R.extra["_dir_counter"] = R.extra.get("_dir_counter", 0) + 1
+        outs, closed, files, d = L.impl_write(R, ds, ops, strategy, f"w{R.extra['_dir_counter']}")
+        shutil.rmtree(d, ignore_errors=True)        # contents are in memory now
         impl.append((outs, closed, files, d))
         reqs.append(L.run_request(ds, ops, L.Oracle()))
     reps = L.oracle_batch(R, reqs)
@@ -168,6 +171,7 @@ def run(R):
             import traceback
             R.disagree("run_datasets: the implementation left the harness in an unexpected state",
                        {"datasets": [a, a + chunk]}, traceback.format_exc()[-1500:], "no exception")
+    R.extra.pop("_dir_counter", None)
     R.notes.append("zlib.compress / zlib.decompress are an oracle: the model is handed the real "
                    "library's answers for exactly the byte strings it asks for")
     R.notes.append("grids up to 6x6x6; the theorems cover all grids, the correspondence samples them")
